@@ -9,6 +9,7 @@ HARNESS = ['zz_layout_test.go']
 INV = 'NoPanic PeerMaps LayoutSound PeerSame SortedThroughGlobal QueueSound CrossWired ArmAligned'
 SLUG_SIZE = 'size-plus-header-wraps-uint32'
 SLUG_QUEUE = 'queue-cap-times-12-wraps-uint32'
+SLUG_PCT = 'percent-sum-wraps-uint32'
 
 CFG = """SPECIFICATION Spec
 CONSTANTS
@@ -82,7 +83,7 @@ def grids(tier, rng):
                      s2=[0, 1, 3, 8, 16, 40], p2=[0, 1, 10, 33, 50, 90, 100],
                      s3=[1, 3, 16], p3=[10, 33, 50], qcaps=[0, 1, 2, 3, 4, 7, 8, 100, 8192], extra=realistic(rng, 60, 8 << 20))
         wrap = dict(mem=[1, 43, 44, 45, 57, 64, 100, 200, 254, 255], s1=range(256), p1=[0, 1, 50, 100, 156, 206, 255],
-                    s2=[0, 1, 8, 30, 100, 235, 236, 237, 255], p2=[0, 1, 50, 100, 156, 206, 255], s3=[], p3=[],
+                    s2=[0, 1, 8, 30, 100, 235, 236, 237, 255], p2=[0, 1, 50, 100, 156, 206, 255], s3=[1, 30], p3=[50, 206, 255],
                     qcaps=range(41), globals=False, smallcap=300)
     else:
         exact = dict(mem=[0, 1, 4, 5, 7, 8, 9, 43, 44, 45, 56, 57, 64, 65, 79, 80, 81, 100, 116, 117, 128, 160, 200, 255, 256, 257,
@@ -90,7 +91,7 @@ def grids(tier, rng):
                      s1=list(range(0, 70)) + [100, 200, 500, 1000], p1=list(range(0, 102)) + [150, 1000],
                      s2=[0, 1, 2, 3, 7, 8, 16, 21, 40, 100], p2=[0, 1, 10, 25, 33, 50, 67, 99, 100, 101],
                      s3=[1, 3, 16, 40], p3=[10, 30, 33, 34, 50], qcaps=list(range(0, 70)) + [100, 1000, 8191, 8192, 16384, 65536, 1 << 20],
-                     extra=realistic(rng, 400, 64 << 20) + realistic(rng, 6, 256 << 20))
+                     extra=realistic(rng, 300, 32 << 20) + realistic(rng, 4, 256 << 20))
         wrap = dict(mem=[1, 8, 43, 44, 45, 57, 64, 65, 80, 100, 150, 200, 250, 254, 255], s1=range(256),
                     p1=[0, 1, 33, 50, 99, 100, 101, 156, 206, 255],
                     s2=[0, 1, 8, 30, 100, 200, 235, 236, 237, 255], p2=[0, 1, 50, 100, 156, 206, 255], s3=[1, 30, 236], p3=[50, 206, 255],
@@ -147,7 +148,7 @@ def report(ck, r, known, name=None):
                      {'tag': v['tag'], 'row': v['row'], 'backend': v['backend'], 'detail': v['detail']}, name=name)
     if r['violation_count'] > len(r['violations'][:6]):
         ck.notes.append('%d violating executions in total, first ones reported' % r['violation_count'])
-    for slug in (SLUG_SIZE, SLUG_QUEUE):
+    for slug in (SLUG_SIZE, SLUG_PCT, SLUG_QUEUE):
         w = r['witness'].get(slug)
         if w is None:
             continue
@@ -172,7 +173,7 @@ def run(prop, tier, seed, replay=None):
     ck = core.Check(prop, 'model_checking', tier, seed)
     rng = random.Random(ck.seed)
     known = core.known_findings()
-    ks, kq = ('C03', SLUG_SIZE) in known, ('C03', SLUG_QUEUE) in known
+    ks, kq, kp = ('C03', SLUG_SIZE) in known, ('C03', SLUG_QUEUE) in known, ('C03', SLUG_PCT) in known
     ck.assumptions += [
         'the specification uses mathematical integers (M = 0) for the conformance-bound grid: exact below 2^30-byte mappings; '
         'the uint32/uint64 wrap corners are explored on a reduced word width (M = 256) and, at the real width, by harness-side '
@@ -187,7 +188,7 @@ def run(prop, tier, seed, replay=None):
         rep = json.load(open(replay))
         ck.cov['evaluations'] = 1
         ck.cov['distinct_nontrivial'] = 1
-        job = {'seed': ck.seed, 'force_backend': rep.get('backend', 0), 'known_size_wrap': False, 'known_queue_wrap': False,
+        job = {'seed': ck.seed, 'force_backend': rep.get('backend', 0), 'known_size_wrap': False, 'known_queue_wrap': False, 'known_pct_wrap': False,
                'witnesses': rep.get('tag') == 'W', 'edge': False}
         rows = None if rep.get('tag') == 'W' else [rep['tag'] + ' ' + ' '.join(str(x) for x in rep['row'])]
         r = harness(ck, job, rows, 600)
@@ -200,13 +201,14 @@ def run(prop, tier, seed, replay=None):
 
     exact, wrap = grids(ck.tier, rng)
     big = ck.tier == 'thorough'
-    ck.log('TLC: exact grid, reduced-width grid and two lead runs in parallel')
-    with ThreadPoolExecutor(4) as ex:
+    ck.log('TLC: exact grid, reduced-width grid and three lead runs in parallel')
+    with ThreadPoolExecutor(5) as ex:
         f_exact = ex.submit(run_tlc, exact, 'exact', 0, True, (), 3000 if big else 900, 12)
-        f_wrap = ex.submit(run_tlc, wrap, 'wrap', 256, False, ('NoSizeWrap', 'NoQueueWrap'), 3000 if big else 900, 6)
-        f_lb = ex.submit(run_tlc, dict(wrap, qcaps=[]), 'leadbuf', 256, False, ('NoQueueWrap',), 900, 2)
-        f_lq = ex.submit(run_tlc, dict(wrap, mem=[]), 'leadq', 256, False, ('NoSizeWrap',), 900, 2)
-        res, wres, lb, lq = f_exact.result(), f_wrap.result(), f_lb.result(), f_lq.result()
+        f_wrap = ex.submit(run_tlc, wrap, 'wrap', 256, False, ('NoSizeWrap', 'NoPercentWrap', 'NoQueueWrap'), 3000 if big else 900, 6)
+        f_lb = ex.submit(run_tlc, dict(wrap, qcaps=[]), 'leadbuf', 256, False, ('NoPercentWrap',), 900, 2)
+        f_lp = ex.submit(run_tlc, dict(wrap, qcaps=[]), 'leadpct', 256, False, ('NoSizeWrap',), 900, 2)
+        f_lq = ex.submit(run_tlc, dict(wrap, mem=[]), 'leadq', 256, False, (), 900, 2)
+        res, wres, lb, lp, lq = f_exact.result(), f_wrap.result(), f_lb.result(), f_lp.result(), f_lq.result()
     ck.cov['tlc_configs'] = []
     if res.violation:
         ck.inconc('TLC reports %s on the Layout specification itself (design-level lead, not a verdict on the code); configuration %s'
@@ -232,7 +234,7 @@ def run(prop, tier, seed, replay=None):
     if wres.ok:
         ck.add('states', wres.distinct)
         ck.add('transitions', wres.generated - inits(wres))
-        ck.cov['tlc_configs'].append('Layout reduced width (M=256, wrap classes of the two findings excluded by CONSTRAINT): '
+        ck.cov['tlc_configs'].append('Layout reduced width (M=256, wrap classes of the three findings excluded by CONSTRAINT): '
                                      '%d distinct states, %.1fs, all invariants hold' % (wres.distinct, wres.wall))
     elif wres.violation:
         ck.inconc('reduced-width model (M=256) violates %s outside the recorded wrap classes at %s - a design-level lead that '
@@ -240,7 +242,7 @@ def run(prop, tier, seed, replay=None):
     else:
         ck.notes.append('reduced-width run did not finish: ' + (wres.error or 'timeout')[:200])
     leads = []
-    for nm, l in (('buffer', lb), ('queue', lq)):
+    for nm, l in (('buffer/size', lb), ('buffer/percent', lp), ('queue', lq)):
         if l.violation:
             leads.append({'kind': nm, 'invariant': l.violation, 'reduced_width_configuration': str(lead_cfg(l))})
         elif l.ok:
@@ -249,7 +251,7 @@ def run(prop, tier, seed, replay=None):
     ck.log('leads:', leads)
 
     job = {'seed': ck.seed, 'backend_permille': 60 if not big else 30, 'force_backend': -1, 'known_size_wrap': ks,
-           'known_queue_wrap': kq, 'witnesses': True, 'edge': True}
+           'known_queue_wrap': kq, 'known_pct_wrap': kp, 'witnesses': True, 'edge': True}
     r = harness(ck, job, rows, 2400 if big else 600)
     if r is None:
         return ck.finish()
